@@ -113,3 +113,24 @@ Theorem C18_data : forall (A : Type) (dims : list c18_dim) (data : list A) t n,
    c18_dual_face_nodes t n = c18_iota n).
 Proof. exact @c18_data_spec. Qed.
 Print Assumptions C18_data.
+
+(* the dual as a grid of its own: dual face k (around primal node v_k) has dual node f as a corner
+   only if v_k is a corner of primal face f — the dual's node_face table lives in dual-face numbering
+   k, which differs from the primal node numbering whenever a node with < 3 faces was skipped *)
+Theorem C18_dual_node_face : forall t np dp k v row f,
+  nth_error (c18_dual_face_nodes t (length np)) k = Some v ->
+  nth_error (c18_dual_faces t np dp) k = Some row ->
+  In f (c18_real row) ->
+  exists i r, f = Z.of_nat i /\ nth_error t i = Some r /\ In v (corners r).
+Proof. exact c18_dual_node_face. Qed.
+Print Assumptions C18_dual_node_face.
+
+(* handing the primal face_node table to the dual as its node_face table is wrong on partial grids *)
+Theorem C18_handover_refuted :
+  let t := [[0;2;4];[2;1;4];[1;3;4]] in
+  let dp := [(1,1,1);(-1,1,1);(-1,-1,1)] in
+  c18_dual_face_nodes t 6 = [4] /\
+  nth_error (c18_dual_faces t c18_octa_nodes dp) 0 = Some [0;1;2] /\
+  In 1 (c18_real [0;1;2]) /\ ~ In 0 (corners [2;1;4]) /\ In 4 (corners [2;1;4]).
+Proof. exact c18_handover_refuted. Qed.
+Print Assumptions C18_handover_refuted.
